@@ -581,7 +581,17 @@ let macro_mode (casesf : string) (outf : string) =
        match String.split_on_char ' ' line with
        | "case" :: i :: form :: k :: rest ->
            let lits = parse_lits (String.concat " " rest) in
-           let a0 = empty_arena in
+           (* "<form>+<f>": the arena handed to tree! already holds f reusable free slots (f scratch nodes created and
+              removed, in that order, before anything else) *)
+           let (form, nfree) = (match String.split_on_char '+' form with
+             | [b; f] -> (b, int_of_string f) | _ -> (form, 0)) in
+           let a0 =
+             let a = ref empty_arena and ids = ref [] in
+             for j = 0 to nfree - 1 do
+               (match new_node !dbg (n_of_int (2000 + j)) !a with (a', Ok x) -> a := a'; ids := x :: !ids | (a', _) -> a := a')
+             done;
+             List.iter (fun x -> match remove !dbg x !a with (a', _) -> a := a') (List.rev !ids);
+             !a in
            let (a1, rootform) =
              if form = "idp" then begin
                (* the given root is anchored: top(999) -> [r(1000) with k children; 998] *)
